@@ -132,7 +132,7 @@ fn config_case<P: G>(n: usize, c: usize, d: usize, probe_all: bool) -> Box<dyn C
     })
 }
 
-/// (5) construction histories: building other parameter objects first never changes what a construction returns
+/// (4') the public iterators under every mixture of next() and nth(k), skip / step_by / count / last (5 small parameter sets), (5) construction histories: building other parameter objects first never changes what a construction returns
 fn history_case<P: G>(hist: Vec<(usize, usize)>) -> Box<dyn Case> {
     let name: Vec<String> = hist.iter().map(|(n, c)| format!("({},{})", n, c)).collect();
     case(format!("{}/history/{}", P::NAME, name.join("")), move |_v| {
@@ -212,11 +212,63 @@ fn after_use_case<P: G>(n: usize, c: usize, read_first: bool) -> Box<dyn Case> {
     })
 }
 
+/// The public generator iterators honour the Iterator protocol: whatever mixture of next() and nth(k) is used, and through
+/// skip / step_by / count / last, position p of the iteration is generator p of the collected vector (which `config_case`
+/// compares with the derivation)
+fn iterator_protocol_case<P: G>(n: usize, c: usize) -> Box<dyn Case> {
+    case(format!("{}/iterator-protocol/n={},c={}", P::NAME, n, c), move |_v| {
+        fg::clear_intern();
+        let mut res = CaseResult::new("explored");
+        let params = P::params(n, c, P::pc_gens(1)).honest();
+        for h in [false, true] {
+            let which = if h { "hi_base_iter" } else { "gi_base_iter" };
+            let v = if h { P::hi_vec(&params) } else { P::gi_vec(&params) };
+            let len = v.len();
+            // a next() calls, then nth(k), then next(): every (a, k)
+            for a in 0..=len {
+                for k in 0..=(len - a) {
+                    res.transitions += 1;
+                    let mut steps: Vec<(bool, usize)> = vec![(false, 0); a];
+                    steps.push((true, k));
+                    steps.push((false, 0));
+                    let got = P::gens_iter_walk(&params, h, &steps);
+                    res.executions += 1;
+                    res.validated += 1;
+                    let want_nth = v.get(a + k).cloned();
+                    let want_next = if a + k < len { v.get(a + k + 1).cloned() } else { None };
+                    if got[a] != want_nth || got[a + 1] != want_next {
+                        res.violate(
+                            format!("{}/next*{},nth({})", which, a, k),
+                            format!("{}: after {} next() calls, nth({}) / the following next() do not yield generators {} / {}", which, a, k, a + k, a + k + 1),
+                        );
+                    }
+                }
+                let (count, last) = P::gens_iter_count_last(&params, h, a);
+                if count != len - a || last != (if a < len { v.last().cloned() } else { None }) {
+                    res.violate(format!("{}/next*{},count/last", which, a), format!("{}: count() / last() after {} next() calls are wrong", which, a));
+                }
+            }
+            for a in 0..len {
+                for s in 1..=len {
+                    res.transitions += 1;
+                    res.executions += 1;
+                    let got = P::gens_iter_skip_step(&params, h, a, s);
+                    let want: Vec<P> = v.iter().skip(a).step_by(s).cloned().collect();
+                    if got != want {
+                        res.violate(format!("{}/skip({}).step_by({})", which, a, s), format!("{}: skip({}).step_by({}) does not yield the generators at those positions", which, a, s));
+                    }
+                }
+            }
+        }
+        res
+    })
+}
+
 pub fn run(rep: &mut Report) {
     rep.rule = "every (bits, capacity) in {1,2,4,8,16,32,64} x {1,2,4,8,16,32} x extension degree 1..6 (quick: all degrees at capacity 1, {1,6} up to 8, 1 above), fresh construction: (1) the \
                 1+d+2*n*c points are pairwise distinct and none is the identity, (2) each equals the independent SHAKE256 / SHA3-512 \
                 derivation, (3) compressed accessors are the encodings of the same points, (4) the precomputed table is interrogated one \
-                unit vector at a time against the interleaved order, (5) construction histories of length <= 3 over the (n,c) alphabet, and use histories (prove + verify aggregates of every size, up and down) \
+                unit vector at a time against the interleaved order, (4') the public iterators under every mixture of next() and nth(k), skip / step_by / count / last (5 small parameter sets), (5) construction histories of length <= 3 over the (n,c) alphabet, and use histories (prove + verify aggregates of every size, up and down) \
                 after which the object and its clones must still hand out the same generators; \
                 schedules: first-use race of the two cached generator arrays, every interleaving with <= 2 (thorough 3) preemptions, one \
                 fresh process per schedule"
@@ -259,6 +311,10 @@ pub fn run(rep: &mut Report) {
             cases.push(after_use_case::<RistrettoPoint>(n, c, read_first));
             cases.push(after_use_case::<F>(n, c, read_first));
         }
+    }
+    for (n, c) in [(1usize, 4usize), (2, 2), (4, 2), (2, 8), (8, 2)] {
+        cases.push(iterator_protocol_case::<RistrettoPoint>(n, c));
+        cases.push(iterator_protocol_case::<F>(n, c));
     }
     rep.explore("C11", cases);
     // schedules: racing first use of the cached arrays
